@@ -4,7 +4,8 @@ CONSTANTS
   MaxEpoch = 2
   MaxSb = 3
   MaxPeer = 3
-  DropsLateReply = FALSE
-  CtlCompletesData = TRUE
-INVARIANT NeverNilNil
+  DropsLateReply = TRUE
+  CtlCompletesData = FALSE
+INVARIANT NoReplyLost
+
 CHECK_DEADLOCK FALSE
